@@ -155,7 +155,7 @@ func ReadFromWebVTT(i io.Reader) (o *Subtitles, err error) {
 
 		switch {
 		// Comment
-		case strings.HasPrefix(line, "NOTE "):
+		case blockName != webvttBlockNameText && strings.HasPrefix(line, "NOTE "):
 			blockName = webvttBlockNameComment
 			comments = append(comments, strings.TrimPrefix(line, "NOTE "))
 		// Comment introduced by "NOTE" alone on its line or followed by a tab: the text, if any, follows
@@ -179,7 +179,7 @@ func ReadFromWebVTT(i io.Reader) (o *Subtitles, err error) {
 			sa.WebVTTTags = []WebVTTTag{}
 
 		// Region
-		case strings.HasPrefix(line, "Region: "):
+		case blockName != webvttBlockNameText && strings.HasPrefix(line, "Region: "):
 			// Add region styles
 			var r = &Region{InlineStyle: &StyleAttributes{}}
 			for _, part := range strings.Split(strings.TrimPrefix(line, "Region: "), " ") {
@@ -214,7 +214,7 @@ func ReadFromWebVTT(i io.Reader) (o *Subtitles, err error) {
 			// Add region
 			o.Regions[r.ID] = r
 		// Style
-		case strings.HasPrefix(line, "STYLE"):
+		case blockName != webvttBlockNameText && strings.HasPrefix(line, "STYLE"):
 			blockName = webvttBlockNameStyle
 
 			if _, ok := o.Styles[webvttDefaultStyleID]; !ok {
